@@ -20,7 +20,7 @@ EL = {
 }
 LENS = [0, 1, 2, 7, 8, 9]
 STORAGES = ['local_lit', 'local_vla', 'global_mut', 'global_const', 'param_mut', 'param_const_view', 'local_const']
-ACCESS = ['read', 'store', 'inc']
+ACCESS = ['read', 'store', 'inc', 'castidx']
 
 
 def idx_values(L, W):
@@ -40,14 +40,23 @@ def idx_program(el, storage, L, access):
     vals = info['vals'][:L]
     lit = '[' + ', '.join(vals) + ']'
     const = storage in ('global_const', 'param_const_view', 'local_const')
-    if const and access != 'read':
+    if const and access not in ('read', 'castidx'):
         return None
     if access == 'inc' and not info['ops']:
         return None
     if L == 0 and storage in ('global_mut', 'global_const', 'local_lit', 'local_const') and el == 'string':
         pass
     acts = []
-    if access == 'read':
+    if access == 'castidx':
+        # the index is a computed value narrowed to a byte: its low byte is the index
+        if const:
+            acts.append(info['show'].format(x='a[(i + gz) is byte]'))
+        else:
+            acts.append(f'a[(i + gz) is byte] = {info["newv"]};')
+            acts.append(info['show'].format(x='a[(i * 1) is byte]'))
+            if info['ops']:
+                acts.append('a[(gz + i) is byte] += 1;')
+    elif access == 'read':
         acts.append(info['show'].format(x='a[i]'))
     elif access == 'store':
         acts.append(f'a[i] = {info["newv"]};')
@@ -57,7 +66,7 @@ def idx_program(el, storage, L, access):
             acts.append(f'a[i] {op}= {rhs};')
     dump = 'for (int k = 0; k < a.length; k += 1) { ' + info['show'].format(x='a[k]') + " write(','); }"
     body = "write('<'); " + " write('.'); ".join(acts) + " write('>'); " + dump
-    g = ''
+    g = 'int gz = 0;\n'
     pre = ''
     if storage == 'local_lit':
         pre = f'{el}[] a = {lit};'
@@ -66,14 +75,22 @@ def idx_program(el, storage, L, access):
     elif storage == 'local_vla':
         pre = f'{el} a[{L}]; ' + ' '.join(f'a[{k}] = {v};' for k, v in enumerate(vals))
     elif storage == 'global_mut':
-        g = f'{el}[] a = {lit};\n'
+        g += f'{el}[] a = {lit};\n'
     elif storage == 'global_const':
-        g = f'const {el}[] a = {lit};\n'
+        g += f'const {el}[] a = {lit};\n'
     if storage in ('param_mut', 'param_const_view'):
         pt = f'{el}[]' if storage == 'param_mut' else f'const {el}[]'
-        return (f'empty acc({pt} a, int i) {{ {body} }}\n'
+        return (g + f'empty acc({pt} a, int i) {{ {body} }}\n'
                 f'empty @is_you(int i) {{ int canary = 7; {el}[] b = {lit}; acc(b, i); write(canary); }}\n')
     return g + f'empty @is_you(int i) {{ int canary = 7; {pre} {body} write(canary); }}\n'
+
+
+def idxc_program(el, storage, L, k):
+    """The index is a compile-time constant (literal, const variable, folded expression)."""
+    src = idx_program(el, storage, L, 'read' if storage in ('global_const', 'param_const_view', 'local_const') else 'store')
+    if src is None:
+        return None
+    return 'const int KI = ' + str(k) + ';\n' + src.replace('a[i]', f'a[{k}]', 1).replace('a[i]', 'a[KI + 1 - 1]')
 
 
 STR_PROGS = [
@@ -106,9 +123,10 @@ DIV_PROGS = [
 ]
 
 LEN_PROG = """
+int gz = 0;
 empty @is_you(int n) {{
     int canary = 9; write('<');
-    {el} a[n];
+    {el} a[{n}];
     write('>'); write(a.length); {touch}
     write(canary);
 }}
@@ -127,6 +145,11 @@ def items(tier):
                     if idx_program(el, storage, L, access) is not None:
                         out.append((i, 'IDX', el, storage, L, access))
                         i += 1
+    for el in EL:
+        for storage in STORAGES:
+            for L in (0, 1, 8):
+                out.append((i, 'IDXC', el, storage, L))
+                i += 1
     for k in range(len(STR_PROGS)):
         out.append((i, 'STR', k))
         i += 1
@@ -158,6 +181,13 @@ def run_item(item, tier):
             run_program(st, src, [[str(v)] for v in idx_values(L, W)], [W], f'IDX[{el},{storage},len={L},{access}]')
         st.add('cases', len(idx_values(L, 2)))
         st.sample({'family': 'IDX', 'element': el, 'storage': storage, 'length': L, 'access': access, 'indices': idx_values(L, 2)})
+    elif fam == 'IDXC':
+        _, _, el, storage, L = item
+        for k in (-32768, -1, 0, L - 1, L, L + 1, 255, 256, 32767):
+            src = idxc_program(el, storage, L, k)
+            if src is not None:
+                run_program(st, src, [['0']], Ws[:1], f'IDXC[{el},{storage},len={L},index={k}]')
+                st.add('cases')
     elif fam == 'STR':
         k = item[2]
         extra = STR_EXTRA.get(k, [])
@@ -173,26 +203,33 @@ def run_item(item, tier):
         st.sample({'family': 'DIV', 'program': DIV_PROGS[k]})
     elif fam == 'LEN':
         el = item[2]
-        src = LEN_PROG.format(el=el, touch=LEN_TOUCH[el])
-        prog = parse_program(src)
-        for W in Ws:
-            bits = 8 * W
-            mx = (1 << (bits - 1)) - 1
-            maxlen = mx if el in ('byte', 'bool') else mx // W
-            exact = [-mx - 1, -9, -8, -7, -2, -1, 0, 1, 2, 5, maxlen + 1, mx]
-            for n in exact:
-                if 0 <= n <= maxlen and n > 5:
-                    continue
-                for S in (8, 64):
-                    if n > 1 and S == 8:
+        for nexpr in ('n', '(n + gz) is byte'):
+            src = LEN_PROG.format(el=el, touch=LEN_TOUCH[el].replace('n - 1', 'a.length - 1').replace('n > 0', 'a.length > 0'), n=nexpr)
+            prog = parse_program(src)
+            for W in Ws:
+                bits = 8 * W
+                mx = (1 << (bits - 1)) - 1
+                maxlen = mx if el in ('byte', 'bool') else mx // W
+                if nexpr == 'n':
+                    exact = [-mx - 1, -9, -8, -7, -2, -1, 0, 1, 2, 5, maxlen + 1, mx]
+                else:
+                    # the length is the low byte of n: only values whose low byte is small are compared exactly
+                    exact = [0, 1, 2, 5, 256, 257, 258, 261, -256, -255, -254, 513, -mx - 1, mx - 254, 1280 + 2]
+                for n in exact:
+                    if nexpr == 'n' and 0 <= n <= maxlen and n > 5:
                         continue
-                    check_conformance(st, src, prog, [str(n)], W, S, tag=f'LEN[{el}] n={n} S={S}')
-            # lengths that are representable but cannot fit any stack the program has: must be stack_overflow, cleanly
-            per = 8 if el == 'bool' else 1
-            for n in (maxlen, maxlen - 1, 64 * W * per + 8, 4000 * per):
-                if n <= 5 or n > maxlen:
+                    for S in (8, 64):
+                        if (n & 0xFF if nexpr != 'n' else n) > 1 and S == 8:
+                            continue
+                        check_conformance(st, src, prog, [str(n)], W, S, tag=f'LEN[{el}] length={nexpr} n={n} S={S}')
+                if nexpr != 'n':
                     continue
-                _must_overflow(st, src, prog, n, W, 64, f'LEN[{el}] n={n}')
+                # lengths that are representable but cannot fit any stack the program has: must be stack_overflow, cleanly
+                per = 8 if el == 'bool' else 1
+                for n in (maxlen, maxlen - 1, 64 * W * per + 8, 4000 * per):
+                    if n <= 5 or n > maxlen:
+                        continue
+                    _must_overflow(st, src, prog, n, W, 64, f'LEN[{el}] n={n}')
         st.sample({'family': 'LEN', 'element': el})
     elif fam == 'NLP':
         src = tt.build_P(item[2])
@@ -224,10 +261,11 @@ def coverage(total, tier):
     return std_coverage(total, {
         'IDX': 'index in {min,-8,-2,-1,0,1,7,8,len-1,len,len+1,255,256,max} x length in {0,1,2,7,8,9} x element int/byte/bool/string x '
                'storage {local literal, local const literal, VLA, mutable global, const global, by-reference parameter, const view of a '
-               'mutable array} x access {read, store, every op= }; string indexing from 9 sources incl. argv',
+               'mutable array} x access {read, store, every op=, index computed and narrowed with `is byte`}; the same with compile-time constant '
+               'indices (literal and const-variable expression) for lengths 0,1,8; string indexing from 9 sources incl. argv',
         'DIV': '/ % /= %= on locals, globals, int and byte array elements, call operands, conditions and !truth_is_defeat arguments; '
                'dividend and divisor over {min,-7,-1,0,1,7,max}^2',
-        'LEN': 'dynamic array length in {min,-9,-8,-7,-2,-1,0,1,2,5,maxlen+1,max} (exact reference match at stack 8 and 64) and '
+        'LEN': 'dynamic array length (plain, and computed + narrowed with `is byte`) in {min,-9,-8,-7,-2,-1,0,1,2,5,maxlen+1,max} (exact reference match at stack 8 and 64) and '
                '{maxlen, maxlen-1, just above the stack size, 4000 elements} (must be a clean stack_overflow) for int/byte/bool/string elements',
         'NLP': 'family P of C02 (preemptive defeat functions x continuations x undo/stop)',
         'word_sizes': '2,3,4' if tier == 'thorough' else '2 plus one of 3,4 per program',
